@@ -281,6 +281,7 @@ package flatecut
 
 //@ func Cut
 //@   prop C16
+//@   requires len(encoded) <= 0x100000000000000
 //@   ensures implies(retErr == nil, 0 <= encodedLen && encodedLen <= maxEncodedLen && encodedLen <= len(encoded) && decodedLen >= 0)
 //@   ensures implies(retErr != nil, encodedLen == 0 && decodedLen == 0)
 //@   modifies mem(encoded)
